@@ -141,7 +141,11 @@ def gen_settings(rng):
 TEXT_CHARS = "abcXYZ 019.,!?'-é中\U0001F600"
 ENTITIES = ["&amp;", "&lt;", "&gt;", "&nbsp;", "&lrm;", "&rlm;", "&#65;", "&#x42;", "&#x4e2d;", "&#128512;", "&#66 ", "& ", "&.", "AT&T", "&;",
             # an escaped ampersand directly followed by text that spells a reference: must be decoded ONCE
-            "&amp;lt;", "&amp;amp;", "&amp;#65;", "&amp;nbsp;"]
+            "&amp;lt;", "&amp;amp;", "&amp;#65;", "&amp;nbsp;",
+            # numeric references may carry any number of leading zeros
+            "&#000000065;", "&#x000000041;", "&#0000128512;", "&#x0000000000004e2d;",
+            # Unicode "line boundaries" that are not WebVTT line terminators: ordinary text, wherever they stand
+            "w\u2028", "w\u2029", "w\u0085", "w\x0b", "w\x0c", "w\x1c", "w\x1e\x1e"]
 FG = ["white", "lime", "cyan", "red", "yellow", "magenta", "blue", "black"]
 LANGS = ["en", "fr-CA", "ja", "zh-Hans"]
 VOICES = ["Bob", "Esme Smith", "X", "Dr. A", "Tom &amp; Al", "R&D", "A &lt; B"]
